@@ -127,6 +127,9 @@ func (m MapOp) IsWrite() bool {
 
 // BuiltinCall: if in is a call of the named builtin return its args.
 func BuiltinCall(in ssa.Instruction, name string) ([]ssa.Value, bool) {
+	if in == nil {
+		return nil, false
+	}
 	c, ok := in.(*ssa.Call)
 	if !ok {
 		return nil, false
